@@ -617,7 +617,9 @@ fn switch_case<Ctx: ScriptContext>(rep: &mut Report, case: u64, cx: Cx, f: &Frag
         lim("max_witness_items", &|l| { let mut p = ValidationParams::MAX; p.max_witness_items = l; p }, wit);
         lim("max_opcode_count", &|l| { let mut p = ValidationParams::MAX; p.max_opcode_count = l; p }, ops);
         lim("max_exec_stack_size", &|l| { let mut p = ValidationParams::MAX; p.max_exec_stack_size = l; p }, stack);
-        lim("max_recursive_depth", &|l| { let mut p = ValidationParams::MAX; p.max_recursive_depth = l; p }, Some(height));
+        // the nesting depth is taken from the harness's own AST, not from the library's figure
+        let _ = height;
+        lim("max_recursive_depth", &|l| { let mut p = ValidationParams::MAX; p.max_recursive_depth = l; p }, Some(f.height()));
     }
     // monotonicity: accepted under p and p entails q => accepted under q
     let (p, q) = (random_params(rng), random_params(rng));
@@ -793,6 +795,24 @@ pub fn run(cfg: &RunCfg, rep: &mut Report) {
                 f = Frag::ZeroNotEqual(Box::new(f));
             }
             how.push_str("; deep nesting");
+        } else if rng.chance(1, 150) {
+            // ... or a deep chain hanging in one particular child position of a combinator
+            let key = |n: usize| Frag::Check(Box::new(Frag::PkK(KeyRef { id: n % 8, form: if cx == Cx::Tap { KeyForm::XOnly } else { KeyForm::Compressed } })));
+            let mut deep = key(0);
+            for _ in 0..(398 + rng.below(6)) {
+                deep = Frag::ZeroNotEqual(Box::new(deep));
+            }
+            let bx = |x: Frag| Box::new(x);
+            f = match rng.below(7) {
+                0 => Frag::AndOr(bx(key(1)), bx(key(2)), bx(deep)),
+                1 => Frag::AndOr(bx(key(1)), bx(deep), bx(key(2))),
+                2 => Frag::AndOr(bx(deep), bx(key(1)), bx(key(2))),
+                3 => Frag::AndV(bx(Frag::Verify(bx(key(1)))), bx(deep)),
+                4 => Frag::OrD(bx(key(1)), bx(deep)),
+                5 => Frag::OrI(bx(deep), bx(key(1))),
+                _ => Frag::Thresh(2, vec![key(1), Frag::Swap(bx(key(2))), Frag::Alt(bx(deep))]),
+            };
+            how = format!("deep chain in one child position ({})", f.name());
         }
         match cx {
             Cx::Bare => accept_case::<BareCtx>(rep, i, cx, &f, &how, &world),
